@@ -343,16 +343,34 @@ def run_sensors(ctx, res):
     for _ in range(n_mal):
         p, how = mutate(rng, rng.choice(payloads))
         mal.append((how, p))
-    # every truncation of a few payloads
-    for p in rng.sample(payloads, 4 if tier == "quick" else 40):
-        if len(p) < 400:
-            for k in range(len(p)):
-                mal.append(("trunc-all", p[:k]))
+    # every truncation of a few payloads; theorem `short_payload_errors` / `short_payload_tail_ok` evaluated on
+    # the implementation: a strict prefix is an error unless it only lacks the unread tail of the last mixer
+    # block (its last byte, or its last four bytes when that mixer's temperature is NaN)
+    expect_err = {}
+    idx = [i for i, c in enumerate(cases) if c[2] is not None and len(payloads[i]) < 400]
+    nan_last = [i for i in idx if cases[i][2]["mixers"] and canon.is_nan32(cases[i][2]["mixers"][-1][0])]
+    k_each = 4 if tier == "quick" else 40
+    chosen = rng.sample(nan_last, min(len(nan_last), k_each)) + rng.sample(idx, min(len(idx), k_each))
+    for i in chosen:
+        p, m = payloads[i], cases[i][2]
+        slack = 0 if not m["mixers"] else (4 if canon.is_nan32(m["mixers"][-1][0]) else 1)
+        for k in range(len(p)):
+            mal.append(("trunc-all", p[:k]))
+            expect_err[len(mal) - 1] = (k + slack < len(p), slack)
     answers = driver_batch("c05s-decode " + hexs(p) for _, p in mal)
-    for (how, p), ans in zip(mal, answers):
+    for j, ((how, p), ans) in enumerate(zip(mal, answers)):
         res.case(("sm", p), len(p) > 8)
         res.count("sensors-malformed:" + how)
         check_payload(res, how, p, ans, dict(kind="sensors-hex", payload=p.hex(), label=how), False)
+        if j in expect_err:
+            want, slack = expect_err[j]
+            res.count("short-payload:" + ("error" if want else "tail-ok"))
+            got, _ = decode_impl(p)
+            if (got[0] == "ERR") != want:
+                res.fail("spec", dict(kind="sensors-hex", payload=p.hex(), label="short_payload_errors", slack=slack),
+                         "ERR" if want else "the full value", list(got) if got[0] != "ok" else "a value",
+                         "truncated payload: " + ("a strict prefix that cuts a decoded field must raise" if want else
+                                                  "a prefix lacking only the unread tail of the last mixer block decodes"))
 
 
 def run(ctx):
@@ -369,6 +387,8 @@ def run(ctx):
         c05_regdata = None
     if c05_regdata is not None:
         c05_regdata.run_regdata(ctx, res)
+        import c05_device
+        c05_device.run_device(ctx, res)
     return res
 
 
@@ -389,7 +409,11 @@ def replay(ctx):
         res.case(payload)
         check_payload(res, "replay", payload, ans, inp, False)
     else:
-        import c05_regdata
-        c05_regdata.replay_one(inp, res)
+        if inp["kind"] == "device-seq":
+            import c05_device
+            c05_device.replay_one(inp, res)
+        else:
+            import c05_regdata
+            c05_regdata.replay_one(inp, res)
     res.sample(dict(input=inp, failures=len(res.failures)))
     return res
